@@ -293,6 +293,7 @@ def genMode? (s : String) : Option GenMode :=
   | "gen" => some .ok | "genbad" => some .badRand | "genbadsk" => some .badSk
   | "genbadcache" => some .badCache | "gennullpub" => some .nullPub
   | "genctr" => some .ctr | "genctrbadkp" => some .ctrBadKp
+  | "genctrzerosec" => some .ctrZeroSec | "genctrovfsec" => some .ctrOvfSec
   | _ => none
 
 def signMode? (s : String) : Option SignMode :=
